@@ -253,7 +253,9 @@ class WMSServer(Server):
             mimetype = request.params.info_format
 
         if not infos:
-            return Response('', mimetype=mimetype)
+            # answer with one of the info formats of this WMS version, not with the unvalidated INFO_FORMAT parameter
+            info_type = infotype_from_mimetype(request.version, mimetype)
+            return Response('', mimetype=mimetype_from_infotype(request.version, info_type))
 
         if self.fi_transformers:
             if not mimetype:
